@@ -296,8 +296,10 @@ pub fn run(op: &str, args: &[String]) -> Option<String> {
                 Err(_) => "X".into(),
             };
         }
-        let c = tx.verif_hash_cache();
-        fields.push(format!("{};{};{};{};{};{}", pre, ck(&ser), fresh, slot(&c[0]), slot(&c[1]), slot(&c[2])));
+        match crate::util::cache_view(&tx) {
+            Some(c) => fields.push(format!("{};{};{};{};{};{}", pre, ck(&ser), fresh, slot(&c[0]), slot(&c[1]), slot(&c[2]))),
+            None => fields.push(format!("{};{};{};?;?;?", pre, ck(&ser), fresh)),
+        }
     }
     Some(format!("OK:{}", fields.join(";")))
 }
